@@ -726,6 +726,34 @@ func main() {
 		ok = append(ok, "("+coqStr(e.Name)+", "+id+")")
 	}
 	b.WriteString("Definition msgp_schemas : list (string * mp_ty) := [\n  " + strings.Join(ok, ";\n  ") + "].\n\n")
+	var lossy []string
+	var hasDrop func(s *Schema) bool
+	hasDrop = func(s *Schema) bool {
+		if s == nil {
+			return false
+		}
+		if s.K == "drop" || hasDrop(s.Elem) {
+			return true
+		}
+		for _, f := range s.Fields {
+			if hasDrop(f.T) {
+				return true
+			}
+		}
+		for _, a := range s.Alts {
+			if hasDrop(a.T) {
+				return true
+			}
+		}
+		return false
+	}
+	for _, e := range entries {
+		if hasDrop(e.Schema) {
+			lossy = append(lossy, coqStr(e.Name))
+		}
+	}
+	b.WriteString("(* schemas containing a type whose hand-written UnmarshalMsg copies nothing back from its shadow value *)\n")
+	b.WriteString("Definition msgp_lossy : list string := [" + strings.Join(lossy, "; ") + "].\n\n")
 	b.WriteString("(* types with generated code that the universe cannot express (allow-listed in the translator) *)\n")
 	b.WriteString("Definition msgp_unsupported : list (string * string) := [\n  " + strings.Join(un, ";\n  ") + "].\n")
 	out := "/verif/coq/Gen/MsgpSchema.v"
